@@ -137,7 +137,7 @@ def api_check(prop, stages, tier_arg=None):
             failures.append({'property': prop, 'kind': 'api', 'replay_module': 'checks_api', 'facet': 'rejected-by-spec',
                              'term': ctx['pattern'], 'spelling': ctx['method'], 'method': ctx['method'], 'params': ctx['params'],
                              'pattern': ctx['pattern'], 'pattern_text': ctx['pattern_text'], 'text': ctx['text'], 'pattern_term': ctx.get('pattern_term'),
-                             'is_path': ctx['is_path'], 'cached': ctx['cached'], 'history': ctx['history'],
+                             'is_path': ctx['is_path'], 'cached': ctx['cached'], 'history': ctx['history'], 'hashseed': ctx.get('hashseed', 0),
                              'detail': {'result': ev['r'], 'exc': ev['exc'], 'shape_ok': ev['shape'], 'ML': ev['ML'],
                                         'names': ev['names'], 'params': ctx['params']},
                              'event': {k: v for k, v in ev.items() if k != 'ctx'}})
@@ -207,6 +207,16 @@ def replay_record(rec):
         hist = [tuple(h) for h in rec['history']]
         flags = [False] * len(hist)
         J.GROUPS_BACKUP = J.GROUPS
+        if rec.get('facet') != 'rejected-by-spec':
+            # a probe of the judge itself (iterate / temporary-source / derived-object / long-file / mutated): run the history again
+            J._long_done.clear()
+            texts = [rec['text']] if not str(rec.get('text', '')).startswith('<') else ['ab']
+            J.run_history(r, hist, flags, rec['pattern'], psrc, texts + [t[::-1] for t in texts], rec.get('is_path', False), {'derive_all': True})
+            same = [f for f in r.failures if f.get('facet') == rec['facet']]
+            for f in same[:3]:
+                print('failure:', json.dumps({k: f.get(k) for k in ('facet', 'method', 'params', 'text', 'detail')})[:700])
+            print('REPRODUCED' if same else 'not reproduced on the current tree')
+            return 1 if same else 0
         J.run_history(r, hist, flags, rec['pattern'], psrc, [rec['text']], rec['is_path'], {})
         evs = [(k, e) for k, e in r.events.items() if e['ctx']['method'] == rec['method'] and e['ctx']['params'] == rec['params']]
         rejected, _, _ = validate_events(evs)
